@@ -18,6 +18,13 @@ VECTOR_TERMS = {
 }
 
 
+SMALL_SIZES = {1: [(1,), (2,), (3,), (4,), (5,), (6,), (7,)],
+               2: [(1, 1), (1, 4), (4, 1), (2, 3), (3, 2), (7, 2), (2, 7)],
+               3: [(1, 1, 1), (2, 1, 3), (1, 3, 2), (3, 2, 1), (2, 2, 2), (7, 1, 1), (1, 7, 1), (1, 1, 7)]}
+
+QUICK_SMALL_SIZES = {1: [(1,), (2,), (3,)], 2: [(1, 2), (2, 1)], 3: [(1, 2, 1)]}
+
+
 def implementer(sm, module, dispatcher, meshcls):
     """(function name, projection index, call node, branch line) chosen by the dispatcher for a class"""
     fi = sm.func(module, dispatcher)
